@@ -1,0 +1,1 @@
+//! Verification hooks: `addr_maps` (thin pass-through wrappers; feature `verif-hooks` only).
